@@ -6,6 +6,7 @@ package sim
 // decoders, so nothing but bytes ever crosses the seam.
 
 import (
+	"bytes"
 	"context"
 	"errors"
 	"fmt"
@@ -223,6 +224,8 @@ func decodeBlock(c cid.Cid, b []byte) (ipld.Node, error) {
 		return cbornode.Decode(b, mh.SHA2_256, -1)
 	case cid.DagProtobuf:
 		return dag.DecodeProtobuf(b)
+	case cid.Raw:
+		return dag.NewRawNodeWPrefix(b, c.Prefix())
 	}
 	return nil, fmt.Errorf("simstore: unsupported codec %d", c.Prefix().Codec)
 }
@@ -230,6 +233,15 @@ func decodeBlock(c cid.Cid, b []byte) (ipld.Node, error) {
 func (s *Store) answer(c cid.Cid) (ipld.Node, error) {
 	s.mu.Lock()
 	b, ok := s.blocks[c.KeyString()]
+	if !ok && c.Prefix().Codec == cid.Raw {
+		// a block store keeps blocks by multihash: the same bytes answer to the raw-codec cid of their hash
+		for k, v := range s.blocks {
+			if kc, err := cid.Cast([]byte(k)); err == nil && bytes.Equal(kc.Hash(), c.Hash()) {
+				b, ok = v, true
+				break
+			}
+		}
+	}
 	f := s.GetFaults[c.String()]
 	alt := s.Alt[c.String()]
 	s.mu.Unlock()
